@@ -241,7 +241,7 @@ def _mk_during(kind, n):
     fn = f"{kind}_during_wrapper"
 
     @task(f"{fn}[n={n}]", PROP, functions=[f"{MP}:{fn}", f"{MP}:plan_mutator", "bluesky.utils:ensure_generator", "bluesky.utils:single_gen"],
-          bounded=BOUND, expect=[f"{MP}:{fn}#outcome[same yield / return / raise at every step] (n={n})"])
+          bounded=BOUND, expect=[f"{MP}:{fn}#outcome[same yield / return / raise at every step] (n={n})"], path_cap=400000, timeout_s=2400)
     def t(I):
         w = I.w
         objs = [dev(f"sig{i}") for i in range(n)]
